@@ -825,6 +825,8 @@ def cfgs_for(tier: str) -> list[Cfg]:
          Cfg(max_depth=3, max_stmts=3, max_routines=1, loops=True, switches=False), Cfg(max_depth=1, max_stmts=5, max_routines=2, coro=True)]
     if tier == "thorough":
         c += [Cfg(max_depth=4, max_stmts=5, max_routines=3), Cfg(max_depth=2, max_stmts=8, max_routines=1)]
+    for x in c:
+        x.hdr_pos = 0.5      # position marks in condition operations too (also of loops inside macros)
     return c
 
 
